@@ -147,6 +147,46 @@ func syntaxCapR(eco string) int {
 	return 7
 }
 
+// rangeTokens: the token alphabet of an ecosystem's range grammar (at most 8 tokens).
+func rangeTokens(eco string) []string {
+	spec := opsTable[eco]
+	ops := spec.ops
+	if eco == "nuget" {
+		ops = nugetListOps
+	}
+	var out []string
+	add := func(t string) {
+		if t != "" && !has(out, t) {
+			out = append(out, t)
+		}
+	}
+	for _, op := range thin(ops, 3) {
+		add(op)
+	}
+	// one shorthand operator (the literal head of the first shorthand range that has one)
+	for _, r := range shorthandRanges(eco) {
+		i := strings.IndexAny(r, "{0123456789")
+		if i > 0 && strings.TrimSpace(r[:i]) != "" {
+			add(strings.TrimSpace(r[:i]))
+			break
+		}
+	}
+	for _, sep := range append(append([]string{}, spec.ands...), spec.ors...) {
+		add(strings.TrimSpace(sep))
+	}
+	switch eco {
+	case "maven", "nuget":
+		add("[")
+		add(",")
+		add("]")
+	}
+	add("{d}.{d}.{d}")
+	if len(out) > 8 {
+		out = append(out[:7], "{d}.{d}.{d}")
+	}
+	return out
+}
+
 func splitIf(cond bool, t string, parts int) []string {
 	if !cond {
 		return []string{t}
@@ -212,6 +252,34 @@ func init() {
 					}
 				}
 			}
+			// token mode for range parsers: every sequence of up to three tokens drawn from the
+			// ecosystem's comparators, one shorthand operator, its separators (words such as "and"
+			// included) and a version, glued and space-joined: shapes like a trailing operator after a
+			// keyword ("1.0.0 and >=") are longer than the raw alphabets reach
+			for _, eco := range ecosystems {
+				toks := rangeTokens(eco)
+				var seqs [][]string
+				for _, a := range toks {
+					seqs = append(seqs, []string{a})
+					for _, b := range toks {
+						seqs = append(seqs, []string{a, b})
+						for _, c := range toks {
+							seqs = append(seqs, []string{a, b, c})
+						}
+					}
+				}
+				seen := map[string]bool{}
+				for _, sq := range seqs {
+					for _, glue := range []string{"", " "} {
+						t := strings.Join(sq, glue)
+						if seen[t] || strings.TrimSpace(stripClasses(t)) == "" && !strings.Contains(t, "{") {
+							continue
+						}
+						seen[t] = true
+						out = append(out, &Config{ID: fmt.Sprintf("C06/R/%s/tokens/%q", eco, t), Pkg: zzhPkg, Func: "C06R", NoPanic: true, ScalarMergeOnly: true, Args: []ArgSpec{ArgStr(eco), ArgTmpl(t), ArgTmpl("{d}.{d}.{d}")}})
+					}
+				}
+			}
 			// vers.Contains: raw tails after a valid prefix, raw heads, raw versions
 			nt := 4
 			if tier == "thorough" {
@@ -261,7 +329,7 @@ func init() {
 			return out
 		},
 		Bounds: func(tier string) string {
-			return "vers.Contains with raw ASCII tails <= 4/5 bytes after 5 scheme prefixes, raw heads <= 6/7, raw versions <= 3, tails <= 8/9 over a 19-symbol VERS alphabet; CLI argument vectors of 0-5 arguments with raw ASCII names, commands and arguments (2-3 bytes); all ASCII strings of length <= 5 (quick) / 7 (thorough) for version parsers and <= 4 / 5 for range parsers, plus strings up to 7 / 9 (versions; thorough: gem 7, maven 8) and 6 / 7 (ranges; thorough: gem and cargo 6) over a 25-symbol syntax alphabet; probes for Contains from 2 grammar templates; per entry point 8 templates with bytes >= 0x80 (all one- and two-byte strings without leads of 3-/4-byte sequences, symbolic two-byte runes inside versions, concrete 3- and 4-byte runes); symbolic 3-/4-byte sequences, the quadratic time bound and long inputs are outside the claim"
+			return "vers.Contains with raw ASCII tails <= 4/5 bytes after 5 scheme prefixes, raw heads <= 6/7, raw versions <= 3, tails <= 8/9 over a 19-symbol VERS alphabet; CLI argument vectors of 0-5 arguments with raw ASCII names, commands and arguments (2-3 bytes); all ASCII strings of length <= 5 (quick) / 7 (thorough) for version parsers and <= 4 / 5 for range parsers, plus strings up to 7 / 9 (versions; thorough: gem 7, maven 8) and 6 / 7 (ranges; thorough: gem and cargo 6) over a 25-symbol syntax alphabet; probes for Contains from 2 grammar templates; per entry point 8 templates with bytes >= 0x80 (all one- and two-byte strings without leads of 3-/4-byte sequences, symbolic two-byte runes inside versions, concrete 3- and 4-byte runes); range parsers also with every sequence of <= 3 tokens (comparators, a shorthand operator, separators incl. word separators, a version), glued and space-joined; symbolic 3-/4-byte sequences, the quadratic time bound and long inputs are outside the claim"
 		},
 		MaxPaths: 3000000,
 	})
